@@ -105,6 +105,45 @@ impl Ipv4HeaderBuilder {
             self.source, self.destination)
     }
 
+//@ item sim/elvis-core/src/protocols/ipv4/ipv4_parsing.rs :: impl Ipv4HeaderBuilder / fn new id=Ipv4HeaderBuilder.new props=C18,C08,C16
+//@ rewrite `type_of_service: Default::default\(\),` => `type_of_service: TypeOfService(0),` ## derive(Default) on the u8 newtype TypeOfService is zero
+//@ rewrite `flags: Default::default\(\),` => `flags: ControlFlags(0),` ## impl Default for ControlFlags is DEFAULT = new(true, true) = ControlFlags(0) (bit layout checked by the Kani harness fields.type_of_service_and_flags_bits)
+//@ contract
+    ensures r == (Ipv4HeaderBuilder { type_of_service: TypeOfService(0), payload_length, identification: 0, fragment_offset: 0, flags: ControlFlags(0),
+        time_to_live: 30, protocol, source, destination }),   //# fresh_builder [C08,C16]
+//@ end
+//@ item sim/elvis-core/src/protocols/ipv4/ipv4_parsing.rs :: impl Ipv4HeaderBuilder / fn type_of_service id=Ipv4HeaderBuilder.type_of_service props=C18,C08,C16
+//@ rewrite `\bself\b` => `vx_self` ## Verus does not support `mut self` parameters: the parameter is rebound to a mutable local (next two steps)
+//@ rewrite `\(mut vx_self` => `(self` ## see above
+//@ start
+        let mut vx_self = self;
+//@ contract
+    ensures r == (Ipv4HeaderBuilder { type_of_service: type_of_service, ..self }),   //# sets_only_that_field [C08,C16]
+//@ end
+//@ item sim/elvis-core/src/protocols/ipv4/ipv4_parsing.rs :: impl Ipv4HeaderBuilder / fn identification id=Ipv4HeaderBuilder.identification props=C18,C08,C16
+//@ rewrite `\bself\b` => `vx_self` ## Verus does not support `mut self` parameters: the parameter is rebound to a mutable local (next two steps)
+//@ rewrite `\(mut vx_self` => `(self` ## see above
+//@ start
+        let mut vx_self = self;
+//@ contract
+    ensures r == (Ipv4HeaderBuilder { identification: identification, ..self }),   //# sets_only_that_field [C08,C16]
+//@ end
+//@ item sim/elvis-core/src/protocols/ipv4/ipv4_parsing.rs :: impl Ipv4HeaderBuilder / fn fragment_offset id=Ipv4HeaderBuilder.fragment_offset props=C18,C08,C16
+//@ rewrite `\bself\b` => `vx_self` ## Verus does not support `mut self` parameters: the parameter is rebound to a mutable local (next two steps)
+//@ rewrite `\(mut vx_self` => `(self` ## see above
+//@ start
+        let mut vx_self = self;
+//@ contract
+    ensures r == (Ipv4HeaderBuilder { fragment_offset: fragment_offset, ..self }),   //# sets_only_that_field [C08,C16]
+//@ end
+//@ item sim/elvis-core/src/protocols/ipv4/ipv4_parsing.rs :: impl Ipv4HeaderBuilder / fn flags id=Ipv4HeaderBuilder.flags props=C18,C08,C16
+//@ rewrite `\bself\b` => `vx_self` ## Verus does not support `mut self` parameters: the parameter is rebound to a mutable local (next two steps)
+//@ rewrite `\(mut vx_self` => `(self` ## see above
+//@ start
+        let mut vx_self = self;
+//@ contract
+    ensures r == (Ipv4HeaderBuilder { flags: flags, ..self }),   //# sets_only_that_field [C08,C16]
+//@ end
 //@ item sim/elvis-core/src/protocols/ipv4/ipv4_parsing.rs :: impl Ipv4HeaderBuilder / fn build id=Ipv4HeaderBuilder.build props=C18,C08,C16
 //@ rewrite `&(total_length|self\.identification|flags_and_fragment_offset)\.to_be_bytes\(\)` => `&vx_u16_to_be(\1)` ## core::to_be_bytes routed through the contract-carrying wrapper
 //@ rewrite `&checksum\.as_u16\(\)\.to_be_bytes\(\)` => `&vx_u16_to_be(checksum.as_u16())` ## core::to_be_bytes routed through the contract-carrying wrapper
